@@ -6,6 +6,7 @@ import (
 	"encoding/json"
 	"errors"
 	"io"
+	"net"
 	"sync"
 	"time"
 
@@ -79,7 +80,8 @@ func (r *scriptReader) Read(p []byte) (int, error) {
 }
 
 type c12Case struct {
-	Kind   string     `json:"kind"` // plain | udp | amqp
+	Kind   string     `json:"kind"`           // plain | udp | udp_live | amqp
+	Host   string     `json:"host,omitempty"` // udp_live: 127.0.0.1 or [::1]
 	Script []readStep `json:"script,omitempty"`
 	Body   string     `json:"body,omitempty"`
 }
@@ -106,6 +108,43 @@ func runC12(raw json.RawMessage) (interface{}, error) {
 	case "udp":
 		l := input.NewListener("127.0.0.1:0", time.Second, input.NewPlain(d))
 		l.HandleData(l, unhx(c.Body), nil)
+	case "udp_live":
+		// a real listener and a real socket: the datagram goes through consumeUdp's receive buffer
+		ln, err := net.Listen("tcp", c.Host+":0")
+		if err != nil {
+			status = "skip" // no such loopback address in this sandbox
+			break
+		}
+		addr := ln.Addr().String()
+		ln.Close()
+		l := input.NewListener(addr, time.Second, input.NewPlain(d))
+		if err := l.Start(); err != nil {
+			status = "skip"
+			break
+		}
+		cn, err := net.Dial("udp", addr)
+		if err != nil {
+			status = "skip"
+		} else {
+			if _, err := cn.Write(unhx(c.Body)); err != nil {
+				status = "skip" // the datagram is larger than this address family carries
+			}
+			cn.Close()
+		}
+		if status == "ok" {
+			last, since := -1, time.Now()
+			for deadline := time.Now().Add(3 * time.Second); time.Now().Before(deadline); time.Sleep(10 * time.Millisecond) {
+				d.mu.Lock()
+				n := len(d.lines)
+				d.mu.Unlock()
+				if n != last {
+					last, since = n, time.Now()
+				} else if n > 0 && time.Since(since) > 150*time.Millisecond {
+					break
+				}
+			}
+		}
+		l.Stop()
 	case "amqp":
 		del := make(chan amqp.Delivery)
 		a := input.NewAMQP(cfg.NewConfig(), d, input.VerifMockConnector(del))
